@@ -3,7 +3,7 @@
 # false alarm or a new genuine finding and must be looked at.
 cd "$(dirname "$0")/.."
 if [ -n "$VP_RUN_REPO" ]; then export VERIF_REPO="$VP_RUN_REPO"; fi
-bin/setup.sh > work/setup.log 2>&1 || true
+mkdir -p work; bin/setup.sh > work/setup.log 2>&1 || true
 ids=$(python3 -c "import json;print(' '.join(c['property_id'] for c in json.load(open('MANIFEST.json'))['checks']))")
 for s in ${SWEEP_SEEDS:-2 3 7 11}; do
   for id in $ids; do
